@@ -36,6 +36,7 @@ func envOr(k, d string) string {
 }
 
 type Prog struct {
+	roFields map[string]bool
 	pkgs      []*packages.Package
 	byPath    map[string]*packages.Package
 	prog      *ssa.Program
